@@ -26,7 +26,14 @@ HARNESS = os.path.join(ROOT, "harness")
 BIN = os.path.join(ROOT, "bin")
 RUN = os.path.join(ROOT, "run")
 EVID = os.path.join(ROOT, "evidence")
-REPO = "/repo"
+REPO = os.environ.get("VERIF_REPO", "/repo")
+ALT = REPO != "/repo"          # scratch copy of the repository (mutation self-tests); never used by registered commands
+if ALT:
+    import hashlib
+    _tag = hashlib.sha1(os.path.abspath(REPO).encode()).hexdigest()[:8]
+    BIN = os.path.join(ROOT, "bin", "alt-" + _tag)
+    RUN = os.path.join(ROOT, "run", "alt-" + _tag)
+    EVID = os.path.join(RUN, "evidence")
 NCPU = os.cpu_count() or 4
 
 
@@ -40,16 +47,32 @@ def log(*a):
     print(*a, file=sys.stderr, flush=True)
 
 
-def build(variant):
-    """rebuild the child for a variant from /repo's current tree; returns path."""
+def child_path(prop, variant):
+    return os.path.join(BIN, "vchild-%s-%s" % (prop.lower(), variant))
+
+
+def build(prop, variant):
+    """rebuild the child of a property for a variant from the repository's current tree; returns path."""
     os.makedirs(BIN, exist_ok=True)
-    try:
-        shutil.copyfile(os.path.join(REPO, "go.sum"), os.path.join(HARNESS, "go.sum"))
-    except OSError:
-        pass
-    out = os.path.join(BIN, "vchild-" + variant)
+    modflag = []
+    if ALT:
+        mod = os.path.join(BIN, "go.mod")
+        txt = open(os.path.join(HARNESS, "go.mod")).read().replace("=> /repo", "=> " + os.path.abspath(REPO))
+        with open(mod + ".tmp%d" % os.getpid(), "w") as f:
+            f.write(txt)
+        os.replace(mod + ".tmp%d" % os.getpid(), mod)
+        shutil.copyfile(os.path.join(REPO, "go.sum"), os.path.join(BIN, "go.sum"))
+        modflag = ["-modfile=" + mod]
+    else:
+        try:
+            src, dst = os.path.join(REPO, "go.sum"), os.path.join(HARNESS, "go.sum")
+            if open(src).read() != open(dst).read():
+                shutil.copyfile(src, dst)
+        except OSError:
+            pass
+    out = child_path(prop, variant)
     tmp = out + ".%d" % os.getpid()
-    cmd = ["go", "build"] + VARIANTS[variant] + ["-o", tmp, "./cmd/vchild"]
+    cmd = ["go", "build"] + modflag + VARIANTS[variant] + ["-o", tmp, "./cmd/vc/" + prop.lower()]
     t0 = time.time()
     p = subprocess.run(cmd, cwd=HARNESS, env=goenv(), stdout=subprocess.PIPE, stderr=subprocess.STDOUT, text=True)
     if p.returncode != 0:
@@ -125,7 +148,7 @@ class Job:
         self.wall = 0.0
 
     def argv(self, only=None, after=0, deadline=None):
-        a = [os.path.join(BIN, "vchild-" + self.variant), "-workload", self.wl, "-seed", str(self.seed), "-tier", self.tier,
+        a = [child_path(self.prop, self.variant), "-workload", self.wl, "-seed", str(self.seed), "-tier", self.tier,
              "-shard", str(self.shard), "-shards", str(self.shards), "-journal", self.journal, "-cur", self.cur,
              "-config", self.config, "-variant", self.variant]
         if only is not None:
@@ -302,7 +325,7 @@ def check(prop, tier):
     # builds
     variants = sorted({ln["variant"] for ln in plan["jobs"]})
     with cf.ThreadPoolExecutor(max_workers=2) as ex:
-        built = list(ex.map(build, variants))
+        built = list(ex.map(lambda v: build(prop, v), variants))
     if any(b is None for b in built):
         print("HARNESS-ERROR property=%s /repo does not build with the verif hooks" % prop)
         return 2
@@ -490,7 +513,7 @@ def check(prop, tier):
 def replay(path):
     r = json.load(open(path))
     prop = r["property"]
-    if build(r["variant"]) is None:
+    if build(prop, r["variant"]) is None:
         print("HARNESS-ERROR property=%s /repo does not build" % prop)
         return 2
     rundir = os.path.join(RUN, "replay-run")
@@ -539,7 +562,11 @@ def main(argv):
     if len(argv) >= 3 and argv[1] == "--replay":
         return replay(argv[2])
     if len(argv) >= 2 and argv[1] == "--build":
-        ok = all(build(v) for v in (argv[2:] or ["asm", "purego"]))
+        # setup: warm the Go build cache for every variant any plan uses
+        ok = True
+        for prop in sorted(PLAN):
+            for v in sorted({ln["variant"] for ln in PLAN[prop]["jobs"]}):
+                ok = (build(prop, v) is not None) and ok
         return 0 if ok else 2
     if len(argv) < 3 or argv[2] not in ("quick", "thorough"):
         print(__doc__)
